@@ -191,6 +191,13 @@ def gen_rs_conditions(rng, role, now=0, freq=10):
     return conds
 
 
+def open_gates(conds, force):
+    """drops the time gates (recent full sync / creation / deletion) when the generator asks for it"""
+    if not force.get("open_gates"):
+        return conds
+    return [c for c in conds if c["type"] not in ("LastFullSync", "PodCreation", "PodDeletion")]
+
+
 def gen_strategy(rng, n, canary):
     freq = rng.choice([10, 10, 10, 1, 60, 0])
     s = K.default_strategy(canary=canary, freq=freq, max_unavailable=pick_iop(rng, n) if rng.random() < 0.7 else 1,
@@ -226,18 +233,28 @@ def gen_eds_annotations(rng, role_canary):
     return ann
 
 
-def gen_ers_world(rng, stats=None):
-    """a store and ONE replica-set reconcile (sometimes two, to exercise the back-off memory)"""
-    n = rng.choice([0, 1, 2, 3, 4, 4, 5, 6, 8, 10])
+def gen_ers_world(rng, stats=None, force=None):
+    """a store and ONE replica-set reconcile (sometimes two, to exercise the back-off memory).
+    `force` pins parts of the world for the property-specific generators: scenario, n, classes (pod classes
+    to draw from), open_gates (no recent LastFullSync/PodCreation/PodDeletion), strategy (dict of overrides),
+    no_faults, annotations (dict), canary (dict of overrides of the canary spec)."""
+    force = force or {}
+    n = force.get("n", rng.choice([0, 1, 2, 3, 4, 4, 5, 6, 8, 10]))
     affinity_mode = rng.random() < 0.4
-    scenario = rng.choice(["active", "active", "active", "canary", "canary", "active_with_canary", "unknown", "unknown_leftover"])
+    scenario = force.get("scenario") or rng.choice(["active", "active", "active", "canary", "canary", "active_with_canary", "unknown", "unknown_leftover"])
     tplA, tplB = gen_template(rng, 1), gen_template(rng, 2)
     role_canary = scenario in ("canary", "active_with_canary")
     canary = gen_canary_spec(rng) if (role_canary or rng.random() < 0.3) else None
+    if canary is not None and force.get("canary"):
+        K.override_canary(canary, force["canary"])
     strat, freq = gen_strategy(rng, n, canary)
+    if force.get("strategy"):
+        freq = K.override_strategy(strat, force["strategy"], freq)
     nodes = gen_nodes(rng, n)
     node_names = [x["metadata"]["name"] for x in nodes]
     ann = gen_eds_annotations(rng, role_canary)
+    if "annotations" in force:
+        ann = dict(force["annotations"])
     objs = list(nodes)
     canary_nodes = []
     if role_canary:
@@ -273,7 +290,7 @@ def gen_ers_world(rng, stats=None):
             r_role = "active" if nm == "foo-a" else ("canary" if nm == "foo-b" and role_canary else "unknown")
             st = K.ers_status(status=r_role if rng.random() < 0.8 else "", desired=rng.randint(0, n), current=rng.randint(0, n),
                               ready=rng.randint(0, n), available=rng.randint(0, n),
-                              conditions=gen_rs_conditions(rng, r_role, freq=freq) if nm == target else None)
+                              conditions=open_gates(gen_rs_conditions(rng, r_role, freq=freq), force) if nm == target else None)
             rs_objs[nm] = K.ers(NS, nm, EDS, tpl, created=rng.choice([-3000, -700, -600, -599, -30]), status=st, selector=selector)
             if rng.random() < 0.03 and nm == target:
                 del rs_objs[nm]["metadata"]["ownerReferences"]
@@ -294,9 +311,11 @@ def gen_ers_world(rng, stats=None):
         nd = [x for x in nodes if x["metadata"]["name"] == node_name]
         return P.node_hash(nd[0]["metadata"].get("annotations"), NS, EDS) if nd else ""
     classes = {}
+    node_class = {}
     for nn in node_names + (["n-gone"] if rng.random() < 0.2 else []):
-        k = rng.choice(POD_CLASSES)
+        k = rng.choice(force.get("classes") or POD_CLASSES)
         classes[k] = classes.get(k, 0) + 1
+        node_class[nn] = k
         pods = gen_pods_for_node(rng, nn, k, target, other if other in rs_objs else None, affinity_mode, nodehash_of)
         # pods of a setting: give some pods the setting's resources
         for p in pods:
@@ -310,7 +329,14 @@ def gen_ers_world(rng, stats=None):
         objs.append(K.pod(NS, "stranger", node=rng.choice(node_names), labels={"app": "x"}))
     if rng.random() < 0.2 and node_names:
         objs.append(K.pod("ns2", "twin", eds_name=EDS, rs_name=target, hash_value="@HASH:" + target, node=rng.choice(node_names)))
-    if rng.random() < 0.08:
+    if force.get("old_ds"):
+        # migration: nodes without a pod of the ExtendedDaemonSet still run the old DaemonSet's pod
+        e["metadata"].setdefault("annotations", {})[P.A_OLD_DS] = "legacy"
+        objs.append(K.daemonset(NS, "legacy", selector=rng.choice([{"matchLabels": {"ds": "legacy"}}, None])))
+        for nn in node_names:
+            if node_class.get(nn) == "none" and rng.random() < 0.8:
+                objs.append(K.pod(NS, "legacy-" + nn, node=nn, labels={"ds": "legacy"}, ds_owner="legacy", ready=rng.random() < 0.6))
+    elif rng.random() < 0.08:
         e["metadata"].setdefault("annotations", {})[P.A_OLD_DS] = "legacy"
         if rng.random() < 0.8:
             objs.append(K.daemonset(NS, "legacy", selector=rng.choice([{"matchLabels": {"ds": "legacy"}}, None])))
@@ -318,7 +344,7 @@ def gen_ers_world(rng, stats=None):
             objs.append(K.pod(NS, "legacy-" + nn, node=nn, labels={"ds": "legacy"}, ds_owner="legacy", ready=rng.random() < 0.7))
     ops = []
     faults = None
-    if rng.random() < 0.12:
+    if rng.random() < 0.12 and not force.get("no_faults"):
         faults = {}
         if rng.random() < 0.5 and node_names:
             faults["create_nodes"] = rng.sample(node_names, rng.randint(1, len(node_names)))
